@@ -10,7 +10,8 @@
                    rotated (the harness waits for the query side's metadata refresh, which C11 models as its own step)
      Restart       shutdown rotation (ForceFlushMetricsBlock) + a new process that loads every rotated segment;
                    afterwards the same series may be put again (new segment, same series id)
-     Query(S, a, b) selector over the series set S (one series: name + all tags; all series of a metric name) and the
+     Query(S, a, b) selector over the series set S (one series: name + all tags; all series of a metric name, selected by
+                   the literal name or by a regular expression on the name) and the
                    window [a, b]: the answer is exactly the accepted datapoints of S inside the window, series without a
                    datapoint in the window are absent.  The expected answer is computed here and exported with the
                    behaviour, so the replay's oracle is this module's `Answer`.
